@@ -31,6 +31,13 @@ JUNK = [('blank', b''), ('tab', b'ab\tcd'), ('nel', 'ab\u0085cd'), ('ls', 'ab\u2
 _SINGLE = [('tab', '\t'), ('nel', '\u0085'), ('ls', '\u2028'), ('ps', '\u2029')] + [('c0_%02x' % c, chr(c)) for c in range(0, 0x20) if c not in (0x0a, 0x0d, 0x09)]
 JUNK += [('%s_first' % n, ch + 'abcd') for n, ch in _SINGLE] + [('%s_last' % n, 'abcd' + ch) for n, ch in _SINGLE] + [('%s_alone' % n, ch) for n, ch in _SINGLE] + \
         [('%s_twice' % n, 'ab' + ch + ch) for n, ch in _SINGLE[:4]]
+# two, three and four line-break characters of the codecs reader in ONE line, with text that would be a valid password behind the last one: the whole
+# physical line is junk, however many pieces the reader's readline() cuts it into
+_BREAKS = [('vt', '\x0b'), ('ff', '\x0c'), ('fs', '\x1c'), ('gs', '\x1d'), ('rs', '\x1e'), ('nel', '\u0085'), ('ls', '\u2028'), ('ps', '\u2029')]
+JUNK += [('%s_two_pieces_behind' % n, 'rec' + ch + 'sepa' + ch + 'values99') for n, ch in _BREAKS] + \
+        [('%s_three_pieces_behind' % n, 'rec' + ch + 'sepa' + ch + 'rated' + ch + 'values99') for n, ch in _BREAKS[::2]] + \
+        [('%s_four_pieces_behind' % n, 'a' + ch + 'b' + ch + 'c' + ch + 'd' + ch + 'values99') for n, ch in _BREAKS[1::2]] + \
+        [('mixed_breaks_behind', 'rec\x1esepa\u2028values99'), ('mixed_breaks_tab_behind', 'rec\x1ese\tpa\x0cvalues99')]
 # a lone CR inside a line is deliberately not in the junk alphabet: treating it as an (old Mac) line end is legitimate
 
 
